@@ -7,6 +7,7 @@ import (
 	"crypto/ed25519"
 	"crypto/x509"
 	"fmt"
+	"strings"
 	"testing"
 	"time"
 
@@ -99,15 +100,23 @@ func enroll(t vkit.TB, c config, state, params *structpb.Struct, subst string) b
 		a = vkit.NewActorOn(nodeStore, "subject", nodeOpts...)
 		req = a.Request(nodeenrollment.WithRegistrationWrapper(rw), nodeenrollment.WithWrappingRegistrationFlowApplicationSpecificParams(params))
 		serverOpts = w.O(nodeenrollment.WithRegistrationWrapper(rw), nodeenrollment.WithState(state))
-	case "re-wrapped":
+	case "re-wrapped", "re-wrapped/server-has-own-registration-wrapper", "re-wrapped/server-has-the-nodes-registration-wrapper":
 		a = vkit.NewActorOn(nodeStore, "subject", nodeOpts...)
-		req = a.Request()
+		// the signed bundle still carries the info sealed with the node-side wrapper
+		nodeRW := vkit.NewAead("node-side-registration")
+		req = a.Request(nodeenrollment.WithRegistrationWrapper(nodeRW), nodeenrollment.WithWrappingRegistrationFlowApplicationSpecificParams(params))
 		blob, err := nodeenrollment.EncryptMessage(w.Ctx, &types.WrappingRegistrationFlowInfo{CertificatePublicKeyPkix: a.CertPkix, Nonce: a.Nonce, ApplicationSpecificParams: params}, other.Creds)
 		if err != nil {
 			return fail("setup-failed", "re-wrap: %v", err)
 		}
 		req.RewrappedWrappingRegistrationFlowInfo, req.RewrappingKeyId = blob, other.KeyID
 		serverOpts = w.O(nodeenrollment.WithState(state))
+		switch c.Flow {
+		case "re-wrapped/server-has-own-registration-wrapper":
+			serverOpts = append(serverOpts, nodeenrollment.WithRegistrationWrapper(vkit.NewAead("server-side-registration")))
+		case "re-wrapped/server-has-the-nodes-registration-wrapper":
+			serverOpts = append(serverOpts, nodeenrollment.WithRegistrationWrapper(nodeRW))
+		}
 	}
 	wantNonce := a.Nonce
 	resp, err := registration.FetchNodeCredentials(w.Ctx, w.Store, req, serverOpts...)
@@ -191,7 +200,7 @@ func enroll(t vkit.TB, c config, state, params *structpb.Struct, subst string) b
 	if !(state == nil && ni.State == nil) && !proto.Equal(ni.State, state) {
 		return fail("record-state", "stored record does not carry the application state")
 	}
-	if c.Flow == "wrapper" || c.Flow == "re-wrapped" {
+	if c.Flow == "wrapper" || strings.HasPrefix(c.Flow, "re-wrapped") {
 		got := ni.WrappingRegistrationFlowInfo.GetApplicationSpecificParams()
 		if !(params == nil && got == nil) && !proto.Equal(got, params) {
 			return fail("record-params", "stored record does not carry the application-specific params")
@@ -339,7 +348,11 @@ func contains(l []string, s string) bool {
 	return false
 }
 
-var flowNames = []string{"operator-authorized", "activation-token", "wrapper", "re-wrapped"}
+// "re-wrapped": the intermediate node opened the node's wrapped registration info with a
+// wrapper the server does not have and re-sealed it to the server; the server itself is
+// configured without a registration wrapper, with one of its own (another one), or with
+// the node's.
+var flowNames = []string{"operator-authorized", "activation-token", "wrapper", "re-wrapped", "re-wrapped/server-has-own-registration-wrapper", "re-wrapped/server-has-the-nodes-registration-wrapper"}
 var substs = []string{"opened-by-other-node", "server-key-replaced", "nonce-empty", "nonce-truncated", "nonce-tail", "nonce-extended", "nonce-bitflip", "nonce-of-other-node", "fields-from-other-response"}
 
 func TestEnum_Product(t *testing.T) {
@@ -365,7 +378,7 @@ func TestEnum_Product(t *testing.T) {
 			}
 		}
 	}
-	vkit.Rec(prop).Exhaustive("flow x back end x server storage wrapper x node storage wrapper x root configuration x node storage back end (192 tuples)", true)
+	vkit.Rec(prop).Exhaustive("flow x back end x server storage wrapper x node storage wrapper x root configuration x node storage back end (288 tuples)", true)
 }
 
 func TestProp_Random(t *testing.T) {
